@@ -34,6 +34,8 @@ pub struct C18State {
     pub unit_cycles: Option<u64>,
     /// out points already spent by pool members (the generator avoids them for valid txs)
     pub used: std::collections::HashSet<OutPoint>,
+    /// dep-group cells created by admitted transactions: (out point, every member is known)
+    pub dep_groups: Vec<(OutPoint, bool)>,
 }
 
 struct Built {
@@ -41,6 +43,8 @@ struct Built {
     valid: bool,
     why: String,
     groups: u64,
+    /// output 0 is a dep-group cell: are all its members known?
+    makes_group: Option<bool>,
 }
 
 fn is_always_success(s: &packed::Script) -> bool {
@@ -63,7 +67,8 @@ fn build(sim: &Sim, st: &C18State, spec: &TxSpec) -> Option<Built> {
             return None;
         }
         let inputs_known = |tx: &TransactionView| {
-            tx.input_pts_iter().all(|op| {
+            // (the cells it depends on count too: a dep group may be the output of a pending parent)
+            tx.input_pts_iter().chain(tx.cell_deps_iter().map(|d| d.out_point())).all(|op| {
                 st.pool.iter().any(|(h, _, _)| h == &op.tx_hash())
                     || c.storage.get_transaction_with_header(&op.tx_hash()).is_some()
             })
@@ -79,7 +84,7 @@ fn build(sim: &Sim, st: &C18State, spec: &TxSpec) -> Option<Built> {
         // still verifiable only if its inputs are still known (a pending parent may have been evicted)
         let known = inputs_known(tx);
         let why = if known { "resubmission of a pool member" } else { "resubmission of a pool member whose pending parent was evicted" };
-        return Some(Built { tx: tx.clone(), valid: known, why: why.into(), groups: 0 });
+        return Some(Built { tx: tx.clone(), valid: known, why: why.into(), groups: 0, makes_group: None });
     }
     let world = &sim.world;
     let dep_known = c.storage.get_transaction_with_header(&world.always_success_dep.out_point().tx_hash()).is_some();
@@ -172,8 +177,45 @@ fn build(sim: &Sim, st: &C18State, spec: &TxSpec) -> Option<Built> {
     let mut version: u32 = 0;
     let tip = c.storage.get_last_state().1.into_view().number();
 
-    match spec.mutation {
+    // some of the plain submissions create a dep-group cell, or use one instead of the code cell
+    let mutation = match (spec.mutation, crate::entropy::mix(&[spec.seed, 0xd9]) % 10) {
+        (0, 0) => 15,
+        (0, 1) | (0, 2) => 16,
+        (m, _) => m,
+    };
+    let mut makes_group: Option<bool> = None;
+    match mutation {
         0 => {}
+        15 => {
+            // output 0 becomes a dep group: the code cell, and sometimes a cell nobody knows
+            let good = rng.chance(1, 2);
+            let mut members = vec![world.always_success_dep.out_point()];
+            if !good {
+                let at = rng.usize_below(2);
+                members.insert(at, bogus_out_point(&mut rng));
+            }
+            let data: packed::OutPointVec = members.pack();
+            datas[0] = data.as_bytes();
+            makes_group = Some(good);
+        }
+        16 => {
+            // the code cell is reached through a dep group created by a pending transaction
+            let usable: Vec<&(OutPoint, bool)> = st
+                .dep_groups
+                .iter()
+                .filter(|(op, _)| st.pool.iter().any(|(h, _, _)| h == &op.tx_hash()))
+                .collect();
+            if !usable.is_empty() {
+                let (op, good) = usable[rng.usize_below(usable.len())].clone();
+                cell_deps = vec![CellDep::new_builder().out_point(op).dep_type(ckb_types::core::DepType::DepGroup.into()).build()];
+                if !good && valid {
+                    valid = false;
+                    why = "the dep group lists a cell the client does not know".into();
+                } else if valid {
+                    why = "valid (the code cell comes through a dep group)".into();
+                }
+            }
+        }
         1 => {
             // outputs exceed inputs
             let o = outputs[0].clone();
@@ -285,6 +327,7 @@ fn build(sim: &Sim, st: &C18State, spec: &TxSpec) -> Option<Built> {
         valid,
         why,
         groups: (locks.len() + types.len()) as u64,
+        makes_group,
     })
 }
 
@@ -318,6 +361,9 @@ fn submit_inner(sim: &mut Sim, st: &mut C18State, spec: &TxSpec, send: bool) {
         None => return,
     };
     sim.log(format!("{} {:#x} ({}) -> {:?}", method, hash, built.why, r));
+    if built.why.contains("dep group") {
+        sim.stat("probe.c18.dep_group_used");
+    }
     match (&r, built.valid) {
         (Ok(_), false) => {
             sim.violate(
@@ -359,6 +405,13 @@ fn submit_inner(sim: &mut Sim, st: &mut C18State, spec: &TxSpec, send: bool) {
                 st.admitted.insert(hash.clone());
                 for i in built.tx.input_pts_iter() {
                     st.used.insert(i);
+                }
+                if let Some(good) = built.makes_group {
+                    // never spent by later submissions
+                    let op = OutPoint::new(hash.clone(), 0);
+                    st.used.insert(op.clone());
+                    st.dep_groups.push((op, good));
+                    sim.stat("probe.c18.dep_group_created");
                 }
                 // pool members are reported as pending with their cycles
                 if let Some(Ok(g)) = crate::user::rpc(sim, "get_transaction", json!([crate::user::h256_json(&hash)])) {
